@@ -27,4 +27,22 @@ _add("C14", *_REACHT, "Pfdl.Props.C14.ids_consecutive", "Pfdl.Props.C14.unique_s
 _add("C08", *_REACH, "Pfdl.Props.C08.accept_iff", "Pfdl.Props.C08.accept_iff_partial", "Pfdl.Props.C08.accept_iff_full_false",
      "Pfdl.Props.C08.reject_noop", "Pfdl.Props.C08.as_if_never_sent", "Pfdl.Props.C08.start_idempotent",
      "Pfdl.Props.C08.invalid_inert")
+_ALL = ["Pfdl.Sched.runOps_all"]
+_add("C02", "Pfdl.Props.C02.block_in_order", "Pfdl.Props.C02.block_handover", "Pfdl.Props.C02.block_end", "Pfdl.Props.C02.rest_shrinks")
+_add("C03", "Pfdl.Props.C03.fork_all_at_once", "Pfdl.Props.C03.branches_independent", "Pfdl.Props.C03.join_then_continue",
+     "Pfdl.Props.C03.join_on_entry", "Pfdl.Props.C03.open_fork_has_open_branch", "Pfdl.enterCalls_fork", "Pfdl.deliverL_frame")
+_add("C04", "Pfdl.Props.C04.exec_queries", "Pfdl.Props.C04.condition_queries", "Pfdl.Props.C04.selects_branch",
+     "Pfdl.Props.C04.no_failed_branch_continues")
+_add("C05", "Pfdl.Props.C05.counting_step", "Pfdl.Props.C05.counting_resume", "Pfdl.Props.C05.counting_starts_at_zero",
+     "Pfdl.Props.C05.counting_exact", "Pfdl.Props.C05.single_service_body", "Pfdl.Props.C05.while_step", "Pfdl.Props.C05.while_resume")
+_add("C06", "Pfdl.Props.C06.ploop_step", "Pfdl.Props.C06.limit_read_once", "Pfdl.Props.C06.starts_N_instances",
+     "Pfdl.Props.C06.starts_none", "Pfdl.Props.C06.join_then_continue", "Pfdl.enterCalls_fork")
+_add("C15", *_ALL, "Pfdl.Props.C15.subst_shape", "Pfdl.Props.C15.subst_index", "Pfdl.Props.C15.loop_body_binding",
+     "Pfdl.Props.C15.params_from_call_site")
+_add("C17", *_ALL, "Pfdl.Props.C17.log_of_event", "Pfdl.Props.C17.mirror", "Pfdl.Props.C17.expand_receivers",
+     "Pfdl.Props.C17.detached_receives_nothing", "Pfdl.Props.C17.net_notice", "Pfdl.Props.C17.flagged_eq_root", "Pfdl.Props.C17.flag_once")
+_add("C18", "Pfdl.Props.C18.fire_independent_of_listeners", "Pfdl.Props.C18.start_independent_of_listeners",
+     "Pfdl.Props.C18.history_independent_of_listeners", "Pfdl.Props.C18.deterministic")
+_add("C20", "Pfdl.Props.C20.register_ret", "Pfdl.Props.C20.register_effect", "Pfdl.Props.C20.fanout",
+     "Pfdl.Props.C20.fanout_service_started", "Pfdl.Props.C20.fanout_other", "Pfdl.Props.C20.listeners_nodup", "Pfdl.Props.C20.each_once")
 _add("C13", "Pfdl.Props.C13.table_complete")
